@@ -5,6 +5,8 @@ import GoderiveModel.S.Plumb
 import GoderiveModel.S.ErrChain
 import GoderiveModel.Spec.Funcs
 
+set_option linter.unusedSimpArgs false
+
 namespace Goderive.Plumb
 
 /-! ### environments with distinct keys -/
@@ -799,3 +801,254 @@ theorem indexFrom_fst {V} : ∀ (l : List (List V)) (i : Nat), (indexFrom i l).m
   | _ :: r, i => by simp [indexFrom, indexFrom_fst r (i + 1), List.range'_succ]
 
 end Goderive.ErrChain
+
+/-! ### static semantics: the wrappers type-check under the same naming condition -/
+namespace Goderive.Plumb
+open Goderive
+
+theorem nodupB_iff : ∀ (l : List Name), nodupB l = true ↔ l.Nodup
+  | [] => by simp [nodupB]
+  | a :: r => by simp [nodupB, nodupB_iff r, List.nodup_cons]
+
+theorem lookupB_of_mem : ∀ (env : List Binder) (b : Binder),
+    (env.map (·.name)).Nodup → b ∈ env → lookupB env b.name = some b.ty
+  | [], _, _, h => by cases h
+  | c :: rest, b, hnd, hmem => by
+    simp only [List.map_cons, List.nodup_cons] at hnd
+    simp only [lookupB]
+    rcases List.mem_cons.1 hmem with h | h
+    · subst h; simp
+    · have hne : c.name ≠ b.name := fun e => hnd.1 (e ▸ List.mem_map.2 ⟨b, h, rfl⟩)
+      simp [hne, lookupB_of_mem rest b hnd.2 h]
+
+theorem argsOk_of_mem (env : List Binder) (hnd : (env.map (·.name)).Nodup) :
+    ∀ (ps : List Param), (∀ p ∈ ps, usable p.name = true ∧ p.toBinder ∈ env) → argsOk env (names ps) (tys ps) = true
+  | [], _ => rfl
+  | p :: r, h => by
+    have h1 := h p (List.mem_cons_self ..)
+    have := lookupB_of_mem env p.toBinder hnd h1.2
+    simp only [Param.toBinder] at this
+    simp [argsOk, names, tys, h1.1, this]
+    exact argsOk_of_mem env hnd r (fun q hq => h q (List.mem_cons_of_mem _ hq))
+
+theorem groupOk_binders {avoid : List Name} {ps : List Param} (h : NamesOk avoid ps) : groupOk (binders ps) = true := by
+  have hn : (binders ps).map (·.name) = names ps := by simp [binders, names, Param.toBinder, Function.comp_def]
+  have hus : (names ps).filter usable = names ps := List.filter_eq_self.2 h.1
+  simp only [groupOk, hn, hus, Bool.and_eq_true, Bool.or_eq_true, List.all_eq_true, nodupB_iff]
+  refine ⟨Or.inr fun n hn => ?_, h.2.1⟩
+  have := h.1 n hn
+  simp only [usable, Bool.and_eq_true] at this
+  exact this.1
+
+/-- whether `return` is printed matches whether there is something to return -/
+theorem retFlag_ok {cfg : Cfg} {nres : Nat} (h : 0 < nres ∨ cfg.voidFixed = true) :
+    (retFlag cfg nres == decide (0 < nres)) = true := by
+  unfold retFlag
+  rcases Nat.eq_zero_or_pos nres with h0 | hp
+  · subst h0
+    rcases h with h | h
+    · omega
+    · simp [h]
+  · have : (nres == 0) = false := by simp; omega
+    simp [this, hp]
+
+end Goderive.Plumb
+
+namespace Goderive.Plumb
+open Goderive
+
+def envBOf (base : List Binder) : List (List Param) → List Binder
+  | [] => base
+  | g :: rest => envBOf ((binders g).reverse ++ base) rest
+
+theorem names_binders (ps : List Param) : (binders ps).map (·.name) = names ps := by
+  simp [binders, names, Param.toBinder, Function.comp_def]
+
+theorem envBOf_ok : ∀ (gs : List (List Param)) (base : List Binder),
+    (base.map (·.name) ++ names gs.flatten).Nodup →
+    ((envBOf base gs).map (·.name)).Nodup ∧ (∀ x ∈ base, x ∈ envBOf base gs) ∧
+      (∀ p ∈ gs.flatten, p.toBinder ∈ envBOf base gs)
+  | [], base, h => by simpa [envBOf, names] using h
+  | g :: rest, base, h => by
+    have hperm : ((((binders g).reverse ++ base).map (·.name)) ++ names rest.flatten).Perm
+        (base.map (·.name) ++ names (g :: rest).flatten) := by
+      simp only [List.map_append, List.map_reverse, names_binders, List.flatten_cons, names_append]
+      rw [← List.append_assoc (base.map (·.name))]
+      exact ((List.reverse_perm _).append_right _ |>.trans List.perm_append_comm).append_right _
+    obtain ⟨h1, h2, h3⟩ := envBOf_ok rest ((binders g).reverse ++ base) (hperm.nodup_iff.2 h)
+    refine ⟨h1, fun x hx => h2 x (List.mem_append_right _ hx), fun p hm => ?_⟩
+    rcases List.mem_append.1 (List.flatten_cons ▸ hm) with hk | hr
+    · exact h2 _ (List.mem_append_left _ (List.mem_reverse.2 (List.mem_map.2 ⟨p, hk, rfl⟩)))
+    · exact h3 p hr
+
+/-- the emitted body type-checks below binder groups with good names -/
+theorem wf_call1 (gs : List (List Param)) (ps : List Param) (nres : Nat) (ret : Bool)
+    (hnd : (fName :: names gs.flatten).Nodup) (hus : ∀ p ∈ ps, usable p.name = true)
+    (hsub : ∀ p ∈ ps, p ∈ gs.flatten) (hret : (ret == decide (0 < nres)) = true) :
+    wf (envBOf [⟨fName, .fn [tys ps] nres⟩] gs) (.call fName [names ps] ret) = true := by
+  obtain ⟨h1, h2, h3⟩ := envBOf_ok gs [⟨fName, .fn [tys ps] nres⟩] (by simpa using hnd)
+  have hf := lookupB_of_mem _ ⟨fName, .fn [tys ps] nres⟩ h1 (h2 _ (by simp))
+  simp only at hf
+  simp only [wf, hf, groupsOk, Bool.and_true, hret]
+  exact argsOk_of_mem _ h1 ps fun p hp => ⟨hus p hp, h3 p (hsub p hp)⟩
+
+theorem groupOk_f (b : BTy) : groupOk [⟨fName, b⟩] = true := by
+  simp only [groupOk, List.map_cons, List.map_nil]
+  decide
+
+theorem curry_wf (cfg : Cfg) (ps : List Param) (nres : Nat) (hlen : 1 ≤ ps.length)
+    (hok : NamesOk [fName] (effParams cfg [fName] paramPrefix ps))
+    (hret : 0 < nres ∨ cfg.voidFixed = true) :
+    wrapperWellFormed (curryTm cfg ps nres) = true := by
+  unfold wrapperWellFormed curryTm
+  have hl := length_effParams cfg [fName] paramPrefix ps
+  generalize effParams cfg [fName] paramPrefix ps = e at hok hl ⊢
+  match e, hl with
+  | p :: ps', hl =>
+    simp only [currySig, List.take_succ_cons, List.take_zero, List.drop_succ_cons, List.drop_zero, wf,
+      Bool.and_eq_true]
+    have hok' : NamesOk [fName] ([p] ++ ps') := hok
+    refine ⟨groupOk_f _, groupOk_binders hok'.left, groupOk_binders hok'.right, ?_⟩
+    have henv : ((binders ps').reverse ++ ((binders [p]).reverse ++ ([fBinder [p :: ps'] nres].reverse ++ [])))
+        = envBOf [⟨fName, .fn [tys (p :: ps')] nres⟩] [[p], ps'] := by
+      simp [envBOf, fBinder]
+    rw [henv]
+    exact wf_call1 _ _ _ _ (by simpa using hok.nodup_f) (fun q hq => hok.1 _ (List.mem_map.2 ⟨q, hq, rfl⟩))
+      (by simp) (retFlag_ok hret)
+  | [], hl => simp at hl; omega
+
+end Goderive.Plumb
+
+namespace Goderive.Plumb
+open Goderive
+
+theorem wf_call2 (gs : List (List Param)) (o i : List Param) (nres : Nat) (ret : Bool)
+    (hnd : (fName :: names gs.flatten).Nodup) (hus : ∀ p ∈ o ++ i, usable p.name = true)
+    (hsub : ∀ p ∈ o ++ i, p ∈ gs.flatten) (hret : (ret == decide (0 < nres)) = true) :
+    wf (envBOf [⟨fName, .fn [tys o, tys i] nres⟩] gs) (.call fName [names o, names i] ret) = true := by
+  obtain ⟨h1, h2, h3⟩ := envBOf_ok gs [⟨fName, .fn [tys o, tys i] nres⟩] (by simpa using hnd)
+  have hf := lookupB_of_mem _ ⟨fName, .fn [tys o, tys i] nres⟩ h1 (h2 _ (by simp))
+  simp only at hf
+  simp only [wf, hf, groupsOk, Bool.and_true, hret, Bool.and_eq_true]
+  exact ⟨argsOk_of_mem _ h1 o fun p hp => ⟨hus p (List.mem_append_left _ hp), h3 p (hsub p (List.mem_append_left _ hp))⟩,
+    argsOk_of_mem _ h1 i fun p hp => ⟨hus p (List.mem_append_right _ hp), h3 p (hsub p (List.mem_append_right _ hp))⟩⟩
+
+theorem flip_wf (cfg : Cfg) (ps : List Param) (nres : Nat) (hlen : 2 ≤ ps.length)
+    (hok : NamesOk [fName] (effParams cfg [fName] paramPrefix ps))
+    (hret : 0 < nres ∨ cfg.voidFixed = true) :
+    wrapperWellFormed (flipTm cfg ps nres) = true := by
+  unfold wrapperWellFormed flipTm
+  have hl := length_effParams cfg [fName] paramPrefix ps
+  generalize effParams cfg [fName] paramPrefix ps = e at hok hl ⊢
+  match e, hl with
+  | p :: q :: ps', hl =>
+    have hperm : (names (flipSig (p :: q :: ps'))).Perm (names (p :: q :: ps')) := List.Perm.swap _ _ _
+    have hokf : NamesOk [fName] (flipSig (p :: q :: ps')) :=
+      ⟨fun n hn => hok.1 n (hperm.mem_iff.1 hn), hperm.nodup_iff.2 hok.2.1, fun n hn => hok.2.2 n (hperm.mem_iff.1 hn)⟩
+    simp only [wf, Bool.and_eq_true]
+    refine ⟨groupOk_f _, groupOk_binders hokf, ?_⟩
+    have henv : ((binders (flipSig (p :: q :: ps'))).reverse ++ ([fBinder [p :: q :: ps'] nres].reverse ++ []))
+        = envBOf [⟨fName, .fn [tys (p :: q :: ps')] nres⟩] [flipSig (p :: q :: ps')] := by
+      simp [envBOf, fBinder]
+    rw [henv]
+    exact wf_call1 _ _ _ _ (by simpa using hokf.nodup_f) (fun r hr => hok.1 _ (List.mem_map.2 ⟨r, hr, rfl⟩))
+      (by
+        intro r hr
+        simp only [flipSig, List.flatten_cons, List.flatten_nil, List.append_nil]
+        exact (List.Perm.swap q p ps').mem_iff.1 hr)
+      (retFlag_ok hret)
+  | [_], hl => simp at hl; omega
+  | [], hl => simp at hl; omega
+
+theorem apply_wf (cfg : Cfg) (ps : List Param) (nres : Nat) (hlen : 1 ≤ ps.length)
+    (hok : NamesOk [fName] (effParams cfg [fName] paramPrefix ps))
+    (hret : 0 < nres ∨ cfg.voidFixed = true) :
+    wrapperWellFormed (applyTm cfg ps nres) = true := by
+  unfold wrapperWellFormed applyTm
+  have hl := length_effParams cfg [fName] paramPrefix ps
+  generalize effParams cfg [fName] paramPrefix ps = e at hok hl ⊢
+  have hne : e ≠ [] := by intro h; subst h; simp at hl; omega
+  obtain ⟨o, l, rfl⟩ : ∃ o l, e = o ++ [l] := ⟨e.dropLast, e.getLast hne, (List.dropLast_concat_getLast hne).symm⟩
+  simp only [applySig_append, wf, Bool.and_eq_true]
+  have hlus := hok.right.1 l.name (by simp [names])
+  have hlf : l.name ≠ fName := fun e => hok.right.2.2 l.name (by simp [names]) (by simp [e])
+  refine ⟨?_, groupOk_binders hok.left, ?_⟩
+  · have hne0 : l.name ≠ [] := by
+      intro e; simp [usable, e] at hlus
+    have hfl : List.filter usable [fName, l.name] = [fName, l.name] :=
+      List.filter_eq_self.2 (by
+        intro n hn
+        rcases List.mem_cons.1 hn with rfl | hn
+        · decide
+        · rcases List.mem_cons.1 hn with rfl | hn
+          · exact hlus
+          · cases hn)
+    simp only [groupOk, fBinder, binders, Param.toBinder, List.map_cons, List.map_nil, hfl, Bool.and_eq_true,
+      Bool.or_eq_true, List.all_eq_true, nodupB_iff]
+    refine ⟨Or.inr ?_, List.nodup_cons.2 ⟨?_, by simp⟩⟩
+    · intro n hn
+      rcases List.mem_cons.1 hn with rfl | hn
+      · decide
+      · rcases List.mem_cons.1 hn with rfl | hn
+        · simpa using hne0
+        · cases hn
+    · intro hm
+      rcases List.mem_cons.1 hm with e | hm
+      · exact hlf e.symm
+      · cases hm
+  · have henv : ((binders o).reverse ++ ((fBinder [o ++ [l]] nres :: binders [l]).reverse ++ []))
+        = envBOf [⟨fName, .fn [tys (o ++ [l])] nres⟩] [[l], o] := by
+      simp [envBOf, fBinder, binders]
+    rw [henv]
+    refine wf_call1 _ _ _ _ ?_ (fun r hr => hok.1 _ (List.mem_map.2 ⟨r, hr, rfl⟩)) (by
+      intro r hr
+      simp only [List.flatten_cons, List.flatten_nil, List.append_nil]
+      exact List.perm_append_comm.mem_iff.1 hr) (retFlag_ok hret)
+    have := hok.nodup_f
+    simp only [List.flatten_cons, List.flatten_nil, List.append_nil, names_append, names_cons, names_nil] at this ⊢
+    exact (List.Perm.cons _ List.perm_append_comm).nodup_iff.1 this
+
+theorem uncurry_wf (cfg : Cfg) (outer inner : List Param) (nres : Nat)
+    (hok : NamesOk [fName] ((uncurryParams cfg outer inner).1 ++ (uncurryParams cfg outer inner).2))
+    (hret : 0 < nres ∨ cfg.voidFixed = true) :
+    wrapperWellFormed (uncurryTm cfg outer inner nres) = true := by
+  unfold wrapperWellFormed uncurryTm
+  generalize uncurryParams cfg outer inner = pr at hok ⊢
+  obtain ⟨o, i⟩ := pr
+  dsimp only at hok ⊢
+  simp only [wf, Bool.and_eq_true]
+  refine ⟨groupOk_f _, groupOk_binders hok, ?_⟩
+  have henv : ((binders (uncurrySig o i)).reverse ++ ([fBinder [o, i] nres].reverse ++ []))
+      = envBOf [⟨fName, .fn [tys o, tys i] nres⟩] [o ++ i] := by
+    simp [envBOf, fBinder, uncurrySig]
+  rw [henv]
+  exact wf_call2 _ _ _ _ _ (by simpa using hok.nodup_f) (fun r hr => hok.1 _ (List.mem_map.2 ⟨r, hr, rfl⟩))
+    (by simp) (retFlag_ok hret)
+
+theorem tuple_wf (ts : List Nat) : wrapperWellFormed (tupleTm ts) = true := by
+  unfold wrapperWellFormed tupleTm
+  have hok : NamesOk [] (tupleParams ts) := namesOk_positional (by simp [vPrefix]) (by simp) _ 0
+  simp only [wf, Bool.and_eq_true]
+  refine ⟨groupOk_binders hok, by simp [groupOk, nodupB], ?_⟩
+  have hnd : (((([] : List Binder).reverse ++ ((binders (tupleParams ts)).reverse ++ []))).map Binder.name).Nodup := by
+    simp only [List.reverse_nil, List.nil_append, List.append_nil, List.map_reverse, names_binders]
+    exact (List.reverse_perm _).nodup_iff.2 hok.2.1
+  have hmem : ∀ p ∈ tupleParams ts, p.toBinder ∈ (([] : List Binder).reverse ++ ((binders (tupleParams ts)).reverse ++ [])) := by
+    intro p hp
+    simp only [List.reverse_nil, List.nil_append, List.append_nil, List.mem_reverse]
+    exact List.mem_map.2 ⟨p, hp, rfl⟩
+  generalize (([] : List Binder).reverse ++ ((binders (tupleParams ts)).reverse ++ [])) = env at hnd hmem
+  have : ∀ (ps : List Param), (∀ p ∈ ps, usable p.name = true ∧ p.toBinder ∈ env) → retOk env (names ps) = true := by
+    intro ps
+    induction ps with
+    | nil => intro _; rfl
+    | cons p r ih =>
+      intro h
+      have h1 := h p (List.mem_cons_self ..)
+      have hb := lookupB_of_mem env p.toBinder hnd h1.2
+      simp only [Param.toBinder] at hb
+      simp only [names_cons, retOk, h1.1, hb, Bool.and_true, Bool.true_and]
+      exact ih fun q hq => h q (List.mem_cons_of_mem _ hq)
+  exact this _ fun p hp => ⟨hok.1 _ (List.mem_map.2 ⟨p, hp, rfl⟩), hmem p hp⟩
+
+end Goderive.Plumb
